@@ -218,6 +218,59 @@ Theorem C19_scram_welcome_forged : forall (HMAC256 : bytes -> bytes -> bytes) st
 Proof. exact scram_on_welcome_forged. Qed.
 Print Assumptions C19_scram_welcome_forged.
 
+(* ---- the AuthScram OBJECT over histories of calls (a WELCOME without / before / after a failed CHALLENGE) ----
+   In a state where _salted_password or _auth_message was never assigned - in particular on a fresh object - NO
+   WELCOME is accepted, whatever signature it carries: the call raises (KeyError for a missing signature, the
+   decoder's error, else AttributeError) and the session ABORTs.  There is no "default" server signature. *)
+Theorem C19_scram_fresh_never_accepts : forall (HMAC256 : bytes -> bytes -> bytes) sig,
+  exists e, scram_obj_on_welcome HMAC256 scram_fresh sig = Raise e.
+Proof. exact scram_fresh_raises. Qed.
+Print Assumptions C19_scram_fresh_never_accepts.
+
+Theorem C19_scram_unset_never_accepts : forall (HMAC256 : bytes -> bytes -> bytes) o sig,
+  so_sp o = None \/ so_am o = None -> exists e, scram_obj_on_welcome HMAC256 o sig = Raise e.
+Proof. exact scram_obj_unset_raises. Qed.
+Print Assumptions C19_scram_unset_never_accepts.
+
+(* C19_scram_mutual for every state of the object: accepted <-> both attributes are set and the signature decodes to
+   HMAC (HMAC _salted_password "Server Key") _auth_message; denied <-> set and it decodes to anything else *)
+Theorem C19_scram_mutual_states : forall (HMAC256 : bytes -> bytes -> bytes) o sig,
+  (scram_obj_on_welcome HMAC256 o sig = Ok Accept <->
+     exists sp am s, so_sp o = Some sp /\ so_am o = Some am /\ sig = Some s /\
+                     b64decode s = Ok (rfc5802_server_signature HMAC256 (rfc5802_server_key HMAC256 sp) am)) /\
+  (scram_obj_on_welcome HMAC256 o sig = Ok Deny <->
+     exists sp am s alleged, so_sp o = Some sp /\ so_am o = Some am /\ sig = Some s /\ b64decode s = Ok alleged /\
+                             alleged <> rfc5802_server_signature HMAC256 (rfc5802_server_key HMAC256 sp) am).
+Proof. exact scram_obj_welcome_spec. Qed.
+Print Assumptions C19_scram_mutual_states.
+
+(* over ALL histories of authextra / on_challenge / on_welcome calls on a fresh object (any order, any number, failed
+   and partial challenges included): a WELCOME is accepted only if the history contains a CHALLENGE whose KDF completed
+   - its output is the state's salted password, which needs the password - and only with the signature
+   HMAC (HMAC salted "Server Key") AuthMessage of the state's values *)
+Theorem C19_scram_history_mutual :
+  forall (H256 : bytes -> bytes) (HMAC256 : bytes -> bytes -> bytes) (PBKDF2 ARGON2ID : bytes -> bytes -> N -> N -> result bytes)
+         (SASLPREP : str -> result str) (REPR_BYTES : bytes -> str) ds password authid ops o' outs sig,
+  scram_obj_run H256 HMAC256 PBKDF2 ARGON2ID SASLPREP REPR_BYTES ds password authid scram_fresh ops = (o', outs) ->
+  scram_obj_on_welcome HMAC256 o' sig = Ok Accept ->
+  exists x pw sp am s,
+    In (OpChallenge x) ops /\ utf8_encode password = Ok pw /\ scram_kdf PBKDF2 ARGON2ID ds pw x = Ok sp /\
+    so_sp o' = Some sp /\ so_am o' = Some am /\ sig = Some s /\
+    b64decode s = Ok (rfc5802_server_signature HMAC256 (rfc5802_server_key HMAC256 sp) am).
+Proof. exact scram_history_mutual. Qed.
+Print Assumptions C19_scram_history_mutual.
+
+(* a completed on_challenge on the object = the single-exchange model of C19_scram_on_challenge, and it sets both attributes *)
+Theorem C19_scram_object_challenge :
+  forall (H256 : bytes -> bytes) (HMAC256 : bytes -> bytes -> bytes) (PBKDF2 ARGON2ID : bytes -> bytes -> N -> N -> result bytes)
+         (SASLPREP : str -> result str) (REPR_BYTES : bytes -> str) ds password authid x o cn reply st,
+  so_nonce o = Some cn ->
+  scram_on_challenge H256 HMAC256 PBKDF2 ARGON2ID SASLPREP REPR_BYTES ds password authid cn x = Ok (reply, st) ->
+  scram_obj_on_challenge H256 HMAC256 PBKDF2 ARGON2ID SASLPREP REPR_BYTES ds password authid x o =
+    ({| so_nonce := Some cn; so_am := Some (ss_auth_message st); so_sp := Some (ss_salted_password st) |}, Ok reply).
+Proof. exact scram_obj_on_challenge_ok. Qed.
+Print Assumptions C19_scram_object_challenge.
+
 (* kdf = "pbkdf2" with the salt as the router sends it (base64 text, a str) - the RFC 5802 / RFC 7677 setting.
    MAIN STATEMENT for the code as it stands (auth.py base64-decodes the salt before PBKDF2; harness/props/c19.py
    reads exactly that expression off auth.py's AST on every run, fails closed on anything it does not recognise, and
@@ -326,6 +379,33 @@ Example C19_scram_witness :
   | Raise _ => False
   end.
 Proof. vm_compute. repeat split; try reflexivity. eexists. split; reflexivity. Qed.
+
+(* a history over the toy oracles: WELCOME on the fresh object with the constant HMAC (HMAC "" "Server Key") "" (which
+   anyone can compute) raises; so it does after a CHALLENGE that failed in the KDF (only _auth_message got assigned);
+   after a completed CHALLENGE the constant is denied and the genuine signature accepted *)
+Example C19_scram_history_witness :
+  let argon := fun pw salt t m => Ok (toy_mac 32 pw (salt ++ [t; m])) in
+  let x := {| sx_nonce := lit "bm9uY2U=c2VydmVy"; sx_kdf := lit "argon2id-13"; sx_salt := VStr (lit "c2FsdHNhbHRzYWx0c2FsdA==");
+              sx_iterations := 3; sx_memory := Some 16; sx_cbind := [] |} in
+  let xbad := {| sx_nonce := lit "bm9uY2U=c2VydmVy"; sx_kdf := lit "scrypt"; sx_salt := VStr (lit "c2FsdHNhbHRzYWx0c2FsdA==");
+                 sx_iterations := 3; sx_memory := Some 16; sx_cbind := [] |} in
+  let const := Some (VStr (b64encode (toy_mac 32 (toy_mac 32 [] (lit "Server Key")) []))) in
+  match scram_obj_run toy_hash (toy_mac 32) (fun _ _ _ _ => Raise OracleMissing) argon (fun s => Ok s) (fun b => b) true
+                      (lit "p4ssw0rd") (lit "user") scram_fresh
+                      [OpWelcome const; OpChallenge x; OpAuthextra (lit "bm9uY2U="); OpWelcome None; OpChallenge xbad; OpWelcome const;
+                       OpChallenge x; OpWelcome const] with
+  | (o, outs) =>
+    match so_sp o, so_am o with
+    | Some sp, Some am =>
+      outs = [Raise AttributeError; Raise AssertionError; Ok []; Raise KeyError; Raise RuntimeError; Raise AttributeError;
+              nth 6 outs (Raise OtherExn); Ok [0]] /\
+      (exists reply, nth 6 outs (Raise OtherExn) = Ok reply) /\
+      scram_obj_on_welcome (toy_mac 32) o
+        (Some (VStr (b64encode (rfc5802_server_signature (toy_mac 32) (rfc5802_server_key (toy_mac 32) sp) am)))) = Ok Accept
+    | _, _ => False
+    end
+  end.
+Proof. vm_compute. repeat split; try reflexivity. eexists. reflexivity. Qed.
 
 (* RFC 6238 appendix B, T = 59 s (counter 1): with the real HMAC-SHA-1 value of RFC 4226 appendix D for count 1
    supplied as the oracle's answer, the model yields "287082" (the last six digits of the RFC's 94287082) *)
